@@ -61,7 +61,7 @@ impl Property for C15 {
     fn rule(&self) -> String {
         "(rom) a generated word over the plain phone pool (stress, tone, long segments), 0-2 sound changes from the segmental generator, and a romaniser table of 1-4 entries in 1-3 lines: inputs are plain IPA (1-2 segments taken from the word), group letters or matrices of 1-2 segmental features, or `$`; outputs fresh strings (Cyrillic capitals / CJK, which no lexer or IPA table uses), `+string` or `*`. \
          Oracle: run(R, w, from=F) equals the harness's own rewrite of the structural result (first matching entry per position, `+` = default grapheme plus string, `*` = nothing, continuation copies of a long segment print as `ː`, `$` entry replaces every syllable separator and the leading stress mark is dropped), and run(R, w) without aliases equals the default rendering of the same structural word — i.e. the romaniser changed nothing but the print. \
-         (derom) a deromaniser table mapping fresh strings to segments of the word (plain, `:[+long]` for a long segment, `:[+stress]` for a segment of a primary-stressed syllable, two-segment sequences): the encoded word (segments replaced by their fresh strings, stress mark dropped where the table supplies it) must parse to the same structural word as the plain text, and run(R, encode(w), into=D) == run(R, w). \
+         (derom) a deromaniser table mapping fresh strings (one fresh character, two fresh characters, or a plain letter of the word followed by a fresh character, so that the word may end in a proper prefix of an alias string) to segments of the word (plain, `:[+long]` for a long segment, `:[+stress]` for a segment of a primary-stressed syllable, two-segment sequences): the encoded word (segments replaced by their fresh strings, stress mark dropped where the table supplies it) must parse to the same structural word as the plain text, and run(R, encode(w), into=D) == run(R, w). \
          Non-trivial: an alias entry applied to ≥1 segment and the sound changes changed the word (rom) / an entry was used (derom). Quick 400k, thorough 5M.".into()
     }
     fn explore(&self, ctx: &mut Ctx) {
@@ -107,7 +107,20 @@ impl Property for C15 {
                 for (si, sj) in &chosen {
                     let (g, len) = gw.sylls[*si].segs[*sj].clone();
                     if used_graphemes.contains(&g) { continue } used_graphemes.push(g.clone());
-                    let fresh = FRESH[fi % FRESH.len()].to_string(); fi += 1;
+                    let mut fresh = FRESH[fi % FRESH.len()].to_string(); fi += 1;
+                    // multi-character strings: two fresh characters, or a plain one-letter grapheme of the word followed by a fresh character (`sЖ > …`, like `sh > ʃ`):
+                    // every *other* occurrence of that letter in the text — in particular at the very end of the word, where only a proper prefix of the string is left — must still read as itself
+                    match t.weighted(&[4, 2, 4]) {
+                        0 => {}
+                        1 => { fresh.push_str(FRESH[fi % FRESH.len()]); fi += 1; }
+                        _ => {
+                            let all: Vec<&String> = gw.sylls.iter().flat_map(|s| s.segs.iter().map(|x| &x.0)).collect();
+                            let last = *all.last().unwrap();
+                            let cand = if t.chance(2, 3) { last.clone() } else { all[t.pick(all.len())].clone() };
+                            let one_plain_letter = cand.chars().count() == 1 && cand.chars().all(|c| c.is_alphabetic() && !FRESH.concat().contains(c));
+                            if one_plain_letter && all.iter().all(|x| **x == cand || !x.contains(cand.as_str())) { fresh = format!("{cand}{fresh}"); }
+                        }
+                    }
                     let stress_variant = gw.sylls[*si].stress == 1 && len == 1 && !unstress.contains(si) && t.chance(1, 2);
                     let two = !stress_variant && len == 1 && *sj + 1 < gw.sylls[*si].segs.len() && gw.sylls[*si].segs[*sj + 1].1 == 1 && !chosen.contains(&(*si, *sj + 1)) && t.chance(1, 4);
                     let out = if stress_variant { unstress.push(*si); format!("{g}:[+stress]") } else if len == 2 { format!("{g}:[+long]") } else if len == 3 { format!("{g}:[+overlong]") } else if two { format!("{g}{}", gw.sylls[*si].segs[*sj + 1].0) } else { g.clone() };
